@@ -27,6 +27,10 @@ NoPollution ==
            /\ (cur.exc => cur.may_raise)
 TimeoutReported == (l > 0 /\ cur.nonterm) => (cur.timeout /\ ~cur.late /\ ~cur.hung)
 ExecuteReturns  == l > 0 => ~cur.hung
+(* a test case whose execution timed out is not started again by the same execute() call (the    *)
+(* type-tracing executor runs terminating test cases twice): a second run of a non-terminating  *)
+(* test needs at least another full timeout, whatever the load of the machine                   *)
+NoReexecutionAfterTimeout == (l > 0 /\ cur.timeout) => cur.starts <= 1
 (* ---- beyond the list: conformance with the design model (DRIFT only) ---- *)
 ConformTimeoutFlag == l > 0 => cur.timeout = cur.expect_timeout
 =============================================================================
